@@ -8,7 +8,7 @@ from .common import FIXED_OFFSETS, HI, LO, NAIVE, UTCZ, anomalies, pick, real_zo
     wall_of_localsec, zone_transitions
 
 ENTRIES = ("interval", "interval_abs", "Interval", "sub", "diff", "diff_default", "abs", "sub_native", "rsub_native")
-NK = ("same", "timezone", "zoneinfo")          # tzinfo kind of the native operand of sub_native / rsub_native
+NK = ("same", "timezone", "zoneinfo", "dateutil")          # tzinfo kind of the native operand of sub_native / rsub_native
 D_ENTRIES = ("interval", "interval_abs", "sub", "diff", "diff_default", "abs")
 
 
@@ -56,7 +56,7 @@ def drive(ctx):
                     vb = mk_dt({"n": rnd.choice(pool), "fo": 0}, y[0], y[1])     # different zones
                 else:
                     vb = mk_dt({"n": "", "fo": rnd.choice(FIXED_OFFSETS)}, y[0], y[1])
-                ctx.emit("iv_len", {"entry": ENTRIES[n % len(ENTRIES)], "nk": NK[(n // 9) % 3]}, [va, vb])
+                ctx.emit("iv_len", {"entry": ENTRIES[n % len(ENTRIES)], "nk": NK[(n // 9) % 4]}, [va, vb])
         # both occurrences of ambiguous wall times against each other (same object)
         for (kind, ws, we, _s, _b, _a) in pick(rnd, [x for x in anomalies(ctx, zn) if x[0] == "overlap"], 3 if q else 30):
             w1 = wall_of_localsec(ws + (we - ws) // 3, 0)
@@ -67,6 +67,18 @@ def drive(ctx):
                 for (x, y) in ((w1, w2), (w2, w1), (w1, w1)):
                     n += 1
                     ctx.emit("iv_len", {"entry": ENTRIES[n % len(ENTRIES)]}, [mk_dt(zr, x, fa), mk_dt(zr, y, fb)])
+    # a foreign DST-aware tzinfo (one dateutil object per zone) used at dates with different offsets, one call after
+    # the other, on either side of the subtraction
+    for zn in my:
+        zr = {"n": zn, "fo": 0}
+        trs = [t for t in zone_transitions(ctx, zn) if t[1] != t[2] and LO + 86400 * 400 < t[0] < HI - 86400 * 400]
+        for (sec, b, a) in pick(rnd, trs, 1 if q else 6):
+            va = mk_dt(zr, local_wall(sec - 86400 * 60, b, 5), 0)
+            vb = mk_dt(zr, local_wall(sec + 86400 * 60, a, 7), 0)
+            vc = mk_dt(UTCZ, i3_to_wall(sec_to_i3(sec, 1)), 0)
+            for (x, y) in ((va, vc), (vb, vc), (va, vb), (vb, va)):
+                for en in ("sub_native", "rsub_native"):
+                    ctx.emit("iv_len", {"entry": en, "nk": "dateutil"}, [x, y])
     # relations built on the elapsed time: closest / farthest / average / same day / anniversary
     for zn in my:
         zr = {"n": zn, "fo": 0}
@@ -141,5 +153,5 @@ def drive(ctx):
             ctx.emit("iv_len", {"entry": ENTRIES[k % len(ENTRIES)]},
                      [mk_dt({"n": rnd.choice(pool), "fo": 0}, w1, 0), mk_dt({"n": rnd.choice(pool), "fo": 0}, w2, 1)])
         else:
-            ctx.emit("iv_len", {"entry": ENTRIES[k % len(ENTRIES)], "nk": NK[(k // 4) % 3]},
+            ctx.emit("iv_len", {"entry": ENTRIES[k % len(ENTRIES)], "nk": NK[(k // 4) % 4]},
                      [mk_dt(UTCZ, w1, 0), mk_dt({"n": "", "fo": rnd.randrange(-86399, 86400)}, w2, 0)])
